@@ -244,6 +244,10 @@ class GenA:
         v.append(lambda: ["put", c, "@none", self.name("i"), d, 0])
         v.append(lambda: ["cp", c, "@fresh"])
         v.append(lambda: ["cg", c, "@fresh"])
+        if h.kind != "prs":
+            # a live reservation of another store / edge of the same class is an unknown token for this one
+            v += [lambda: ["cp", c, "@foreign:p"], lambda: ["cg", c, "@foreign:g"], lambda: ["cp", c, "@foreign:g"],
+                  lambda: ["put", c, "@foreign:p", self.name("i"), d, 0], lambda: ["get", c, "@foreign:g"]]
         if K >= 2:
             if gp:
                 t = rng.choice(gp)
